@@ -59,12 +59,13 @@ CLAIMS['C06'] = dict(
         'finished once free started, joined workers finished, every worker finished once the freeing thread passed its join / alive==0 wait) shows that '
         'after the pool is destroyed every worker has returned and no pool thread ever touches the pool again; (3) the pool lock is mutually exclusive; '
         '(4) BOUNDED PARALLELISM: never more workers, hence never more tasks running at once, than max_threads; (5) WAIT-ALL COMPLETENESS as safety: '
-        'if free(wait_all) has returned, the multiset of executed tasks equals the multiset of submitted ones and nothing was discarded. '
+        'if free(wait_all) has returned, the multiset of executed tasks equals the multiset of submitted ones and nothing was discarded; '
+        '(6) NO DEADLOCK: in every reachable state with an unfinished thread some thread can take a state-changing step (no lost wake-up). '
         'Tie: the real thpool.c runs under a deterministic scheduler (link-time wraps of its pthread calls, virtualised mutex/condition); for '
         'the same schedule the per-step pending-operation codes and the execution log must equal the extracted model (random schedules + every '
         'schedule prefix of length 5 over a 1x1x2 pool); ASan reports a worker touching a freed pool.',
-   note=NOTE_COMMON + 'NOT proved (decided per run by the scheduler harness and its monitors only): that free eventually returns under a fair schedule '
-        '(deadlock freedom, liveness), the wait-current flavour (which tasks may be discarded). Theorems (4),(5) assume max_threads >= 1. Below the model: accesses outside the lock (entry asserts, atomic running counter), weak memory; m_thpool_length/clear not modelled; '
+   note=NOTE_COMMON + 'NOT proved: termination (that free eventually returns) under a fair schedule -- the no-deadlock theorem gives progress, not a '
+        'measure; the wait-current flavour (which tasks may be discarded). Theorems (4)-(6) assume max_threads >= 1. Below the model: accesses outside the lock (entry asserts, atomic running counter), weak memory; m_thpool_length/clear not modelled; '
         'free is assumed to happen after every submitter call returned.',
    technique='Coq proof (conservation invariant + inductive safety invariant over arbitrary schedules) tied by deterministic-scheduler differential testing',
    design='7/C06')
